@@ -9,7 +9,7 @@ COQ_FILES = ["Props/C16.v", "Obl/DispatchOk.v", "Obl/EnumsOk.v"]
 
 def correspondence(ctx):
     n = 400 if ctx.tier == "thorough" else 44
-    CC.run_sessions(ctx, "C16", n, lambda rng: dict(n_events=rng.choice([40,70]), burst=0.3, fault=0.05, bad=0.05, resets=0.25), lambda rng: dict(save=rng.random()<0.6, max_steps=rng.choice([1,2,3,5])))
+    CC.run_sessions(ctx, "C16", n, lambda rng: dict(n_events=rng.choice([40,70]), burst=0.3, fault=0.05, bad=0.05, resets=0.25), lambda rng: dict(save=rng.random()<0.6, max_steps=rng.choice([1,2,3,5])), scale=True)
 
 
 def replay(ctx, payload):
